@@ -639,6 +639,9 @@ func (x *session) close(clean bool) {
 	x.w.Emit(map[string]any{"ev": "End", "t": "", "id": ci, "res": 0, "err": 0})
 	x.s.Close()
 	_ = x.pid.Shutdown(context.Background())
+	// the death watch removes the stopped actor asynchronously (Terminated messages use pooled contexts): wait for
+	// it, so that this traffic cannot touch the pools of the next history
+	waitFor(x.wd(), func() bool { return actor.VerifSystemActorsIdle(x.sys) })
 	if x.drift != "" {
 		x.st.Drift++
 		if x.st.DriftAt == nil {
